@@ -238,6 +238,10 @@ h("C18", "c18", "c18_volume_4d_degenerate_g2_fixed3", "thorough", 4000,
 h("C18", "c18", "c18_volume_3d_g1", "quick", 1500, f"simplex_volume D=3, all 3^12 quadruples of points in {{-1,0,1}}^3: {VOLLAW}", VOL)
 h(["C18", "C19"], "c18", "c18_volume_2d_wrong_arity", "quick", 300,
   "simplex_volume D=2 with any slice length 0..=5: Ok iff exactly 3 points, never a panic", VOL)
+h("C18", "c18", "c18_volume_4d_degenerate_g4_skew4", "thorough", 4000,
+  "simplex_volume D=4 (Gram/LDLT path) on a SKEW frame: vertices 0..3 fixed at (2,0,-1,1), (-2,1,2,0), (3,3,1,3), (3,-3,3,1), "
+  "vertex 4 every integer point of [-4,4]^4 on their hyperplane (exactly degenerate; the elimination has non-dyadic "
+  "multipliers, so a singular pivot is rounding residue rather than an exact zero): result must be Err", GRAM)
 CC = ["geometry::util::circumsphere::circumcenter (la-stack LU solve, zero-tolerance fallback)"]
 h("C18", "c18", "c18_circumcenter_degenerate_2d_origin_g3", "quick", 1200,
   "circumcenter D=2, first point at the origin, all EXACTLY collinear pairs of further integer points in [0,3]^2: must be Err "
